@@ -100,9 +100,12 @@ Concat(F(_), ts, i) == IF i > Len(ts) THEN <<>> ELSE F(ts[i]) \o Concat(F, ts, i
 ValsQ == Concat(PoolQ, Types, 1)
 ValsT == Concat(PoolT, Types, 1)
 \* a small pool: >= 3 values per type including the family that would coincide after coercion
-\* (i1 / f1 / d1 / d1.0 / "1" / true / [i1])
+\* (i1 / f1 / d1 / d1.0 / "1" / true / [i1] / "2015-07-30T03:26:13Z")
 ValsC == << VNone, VBool(TRUE), VBool(FALSE), I(1), I(0), I(2), Fl(1, 1, 0), VFloat(FZero(1)), Fl(1, 1, 1),
             Dc(1, 0), Dc(10, 1), Dc(0, 0), St("1"), St(""), St("true"), VDT(ZZero), VDT(NsPerSec), DTMid,
             Sec(0), Sec(1), Sec(2), VVec(<<I(1)>>), VVec(<<>>), VVec(<<St("1")>>),
-            VMap(<<>>), VMap(<< <<S("1"), I(1)>> >>), VMap(<< <<S("a"), I(1)>> >>) >>
+            VMap(<<>>), VMap(<< <<S("1"), I(1)>> >>), VMap(<< <<S("a"), I(1)>> >>),
+            \* strings that are the TEXT of a value of another type (an instant, a decimal, a duration in seconds): a
+            \* string is never read as the value it spells unless an explicit cast is applied
+            St("2015-07-30T03:26:13Z"), St("1.5"), St("3600") >>
 =============================================================================
